@@ -468,7 +468,7 @@ PROPS["C09"] = {
 }
 
 PROPS["C12"] = {
-  "units": ["trie", "subfilter", "distributor"],
+  "units": ["trie", "subfilter", "distributor", "subopts"],
   "kani_quick": [], "kani_thorough": [], "enum_fallback": ["trie_histories"],
   "claim": "Matcher semantics only, proved for every topic, every subscription set and every history of subscribe/unsubscribe calls (representation invariant of the abstract view) on the verbatim SubscriptionTrie::{matches, subscribe, unsubscribe}: "
            "against the view cnt(p) = number of active subscriptions to exactly the byte string p, matches(t) is true iff some p with cnt(p) > 0 is a byte-prefix of t (the empty subscription is the prefix of length 0); "
@@ -477,6 +477,7 @@ PROPS["C12"] = {
            "Filter placement (unit subfilter: the FilteredAnonymous arms of PipeMessageSender::{send, try_send_sync, try_send_batch}, regions): a message is enqueued for the application iff the matcher accepts the payload of its FIRST frame "
            "(multipart: first frame only; no frame / no payload = empty topic); on the batched path exactly the matching messages of the consumed prefix are enqueued, in order, the rest of the caller's queue stays in order "
            "(a message refused by back-pressure goes back to the FRONT), nothing is duplicated; the slot's reservation and queued counters grow by exactly the number of messages enqueued. "
+           "Option layer (unit subopts: SubSocket::set_pattern_option): SUBSCRIBE is exactly one trie.subscribe and is announced upstream; UNSUBSCRIBE is exactly one trie.unsubscribe and is announced upstream only when the last subscription to that topic is gone; other options touch nothing. "
            "PUB fan-out (unit distributor: the whole Distributor::send_to_all_multipart): for the snapshot of registered peers, in order, every peer is looked up once and -- iff its connection exists -- offered the whole message exactly once, "
            "whatever happened with the peers before it (a refusal or failure of one peer never ends the loop), and a would-block / timeout answer of a subscriber is never reported as a failure (so the caller removes only peers that really failed).",
   "level_note": "Sequential semantics: each call is verified as if it ran alone. The trie cells are Arc<RwLock<TrieNode>> with an AtomicUsize count; a node handle is identified by its path and the operations on a handle "
